@@ -6,12 +6,14 @@ import (
 	"encoding/base64"
 	"encoding/hex"
 	"fmt"
+	"math/big"
 	mrand "math/rand"
 	"net/http"
 	"net/url"
 	"os"
 	"sort"
 	"strings"
+	"time"
 
 	"github.com/beevik/etree"
 	"github.com/crewjam/saml"
@@ -107,6 +109,7 @@ func runC12(c *Ctx) {
 	c12IDs(c)
 	c12Fields(c)
 	c12Post(c)
+	c12IssueInstant(c)
 }
 
 // ---------- net/url codec vs UrlEnc ----------
@@ -954,5 +957,107 @@ func c12Post(c *Ctx) {
 				Term:  emit.Bool(good), Dedup: fmt.Sprintf("%d|%s", kind, m.s),
 			})
 		}
+	}
+}
+
+// ---------- IssueInstant on the wire and the IdP's freshness bound ----------
+func c12IssueInstant(c *Ctx) {
+	g := c.Group("issueinstant", []string{"UrlEnc", "TimeModel", "Outbound", "OutboundIdP"}, "iicase", "check_iicases")
+	oldNow, oldRand := saml.TimeNow, saml.RandReader
+	defer func() { saml.TimeNow, saml.RandReader = oldNow, oldRand }()
+	saml.RandReader = &recReader{src: c.Rng}
+	base := time.Date(2024, 5, 6, 7, 8, 9, 0, time.UTC)
+	var clocks []time.Time
+	for _, ns := range []int{0, 1, 499999, 500000, 999999, 1000000, 1000001, 123000000, 123456789, 999000000, 999499999, 999500000, 999999999} {
+		clocks = append(clocks, base.Add(time.Duration(ns)))
+	}
+	clocks = append(clocks, time.Date(2024, 12, 31, 23, 59, 59, 999999999, time.UTC), time.Date(2000, 2, 29, 0, 0, 0, 999500000, time.UTC), time.Date(1970, 1, 1, 0, 0, 0, 1, time.UTC))
+	n := 25
+	if c.Thorough() {
+		n = 400
+	}
+	for i := 0; i < n; i++ {
+		clocks = append(clocks, time.Unix(c.Rng.Int63n(4102444800), c.Rng.Int63n(1e9)).UTC())
+	}
+	for i, now := range clocks {
+		now := now
+		o := defaultOpts()
+		if i%2 == 1 {
+			o.ssoRedirect, o.ssoPost = o.ssoRedirect+"?x=1", o.ssoPost+"?x=1"
+		}
+		sp := buildSP(o)
+		text, atBound, after := "", false, false
+		var specOK *bool
+		p, _ := guard(func() {
+			saml.TimeNow = func() time.Time { return now }
+			var urlText, body, method, dest string
+			if i%3 == 0 {
+				h, err := sp.MakePostAuthenticationRequest("rs")
+				if err != nil {
+					return
+				}
+				v, _ := formValueOf(h, "SAMLRequest")
+				method, dest, urlText = "POST", o.ssoPost, o.ssoPost
+				body = url.Values{"SAMLRequest": {v}, "RelayState": {"rs"}}.Encode()
+				x, _ := base64.StdEncoding.DecodeString(v)
+				if root := parseRoot(x); root != nil {
+					text = root.SelectAttrValue("IssueInstant", "")
+				}
+			} else {
+				u, err := sp.MakeRedirectAuthenticationRequest("rs")
+				if err != nil {
+					return
+				}
+				method, dest, urlText = "GET", o.ssoRedirect, u.String()
+				x, _ := inflate64(queryOf(urlText).Get("SAMLRequest"))
+				if root := parseRoot(x); root != nil {
+					text = root.SelectAttrValue("IssueInstant", "")
+				}
+			}
+			wire := now.Truncate(time.Millisecond)
+			verdictAt := func(idpNow time.Time) bool {
+				var md *saml.EntityDescriptor
+				md = sp.Metadata()
+				idp := &saml.IdentityProvider{Key: sp.Key, Certificate: sp.Certificate, MetadataURL: mustURL("https://idp.example.com/metadata"), SSOURL: mustURL(dest),
+					ServiceProviderProvider: staticSPP{md: map[string]*saml.EntityDescriptor{md.EntityID: md}}}
+				saml.TimeNow = func() time.Time { return idpNow }
+				var r *http.Request
+				var err error
+				if method == "GET" {
+					r, err = http.NewRequest("GET", urlText, nil)
+				} else {
+					r, err = http.NewRequest("POST", urlText, strings.NewReader(body))
+					if err == nil {
+						r.Header.Set("Content-Type", "application/x-www-form-urlencoded")
+					}
+				}
+				if err != nil {
+					return false
+				}
+				ir, err := saml.NewIdpAuthnRequest(idp, r)
+				if err != nil {
+					return false
+				}
+				return ir.Validate() == nil
+			}
+			atBound = verdictAt(wire.Add(saml.MaxIssueDelay))
+			after = verdictAt(wire.Add(saml.MaxIssueDelay + 1))
+		})
+		if p {
+			specOK = Bptr(false)
+		}
+		c.Count(fmt.Sprintf("issueinstant/sub_ms/%v", now.Nanosecond()%1000000 != 0))
+		c.Count(fmt.Sprintf("issueinstant/accepted_at_bound/%v", atBound))
+		c.Count(fmt.Sprintf("issueinstant/accepted_after_bound/%v", after))
+		ns := new(big.Int).Mul(big.NewInt(now.Unix()), big.NewInt(1e9))
+		ns.Add(ns, big.NewInt(int64(now.Nanosecond())))
+		c.Add(g, &Case{
+			Key:   map[string]string{"op": "issue_instant", "binding": []string{"post", "redirect", "redirect"}[i%3]},
+			Input: map[string]any{"sp_clock": now.Format(time.RFC3339Nano), "max_issue_delay": saml.MaxIssueDelay.String()},
+			Obs:   map[string]any{"IssueInstant": text, "idp_accepts_at_instant_plus_delay": atBound, "idp_accepts_one_ns_later": after},
+			Term: fmt.Sprintf("{| ii_now := %s; ii_text := %s; ii_at_bound := %s; ii_after_bound := %s |}",
+				emit.ZBig(ns.String()), emit.Str(text), emit.Bool(atBound), emit.Bool(after)),
+			ImplSpecOK: specOK,
+		})
 	}
 }
